@@ -637,5 +637,10 @@ for r, what in (('R71', 'mixture_model_utils / cacgmm / cACG'), ('R72', 'cwmm / 
 for r, what in (('R81', 'mixture_model_utils / cacgmm / cACG'), ('R82', 'cwmm / cbmm / Watson / Bingham / distribution.utils'), ('R83', 'gmm / gaussian / vMF / gcacgmm / vmfcacgmm'),
                 ('R84', 'beamformer / beamformer_wrapper / math.solve'), ('R85', 'permutation_alignment / initializers'), ('R86', 'mask_module / sxr_module / si_sdr / utils')):
     C.append(dict(id=f'N16-{r}-performance', kind='neutral', properties=ALLP, note=f'independent correct performance / clean-up edits of {what}', patch=f'neutral_patches/{r}.patch', edits=[]))
+# ---- ninth campaign: the code modernised for NumPy 2 / current Python (mT, matrix_transpose, permute_dims, vector_norm, linalg.trace, astype, pow, concat, cumulative_sum,
+#      finfo.smallest_normal, isdtype, match statements with class patterns / guards / captures, structural unpacking of shapes, dataclasses.replace, math.prod / perm, star subscripts)
+for r, what in (('R91', 'mixture_model_utils / cacgmm / cACG'), ('R92', 'cwmm / cbmm / Watson / Bingham / distribution.utils'), ('R93', 'gmm / gaussian / vMF / gcacgmm / vmfcacgmm'),
+                ('R94', 'beamformer / beamformer_wrapper / math.solve'), ('R95', 'permutation_alignment / initializers'), ('R96', 'mask_module / sxr_module / si_sdr / utils')):
+    C.append(dict(id=f'N18-{r}-modern', kind='neutral', properties=ALLP, note=f'independent modernisation of {what}', patch=f'neutral_patches/{r}.patch', edits=[]))
 out.write_text(json.dumps(C, indent=1))
 print(len(C), 'variants ->', out)
